@@ -7,6 +7,7 @@ pub mod c12;
 pub mod c11;
 pub mod c13;
 pub mod c14;
+pub mod c19;
 pub mod xp;
 
 #[cfg(kani)]
@@ -24,6 +25,7 @@ pub fn registry() -> Vec<(&'static str, Body)> {
   v.extend(c11::registry());
   v.extend(c13::registry());
   v.extend(c14::registry());
+  v.extend(c19::registry());
   v.extend(xp::registry());
   v
 }
